@@ -125,6 +125,8 @@ Fixpoint m_rswu_loop (s : store) (f : rswu_filter) : list tuple :=
     else if negb (beqb (t_rel t) (sf_rel f)) then m_rswu_loop s' f
     else if (match sf_oids f with None => false | Some l => negb (m_contains l (t_oid t)) end)
          then m_rswu_loop s' f
+    else if negb (null (sf_conds f)) && negb (m_contains (sf_conds f) (t_cond t))
+         then m_rswu_loop s' f
     else m_rswu_inner (sf_users f) t ++ m_rswu_loop s' f
   end.
 
